@@ -336,12 +336,37 @@ fn scenarios<T: FiItem>(out: &mut Shards, rng: &mut Rng, thorough: bool, full: b
             s.merge(w, x);
             s.merge(w, x);
             s.chk(w);
+            // a receiver that took over an offset while its own map was still small keeps growing like any other
+            let w2 = s.new_sketch(lgmax);
+            s.upd(w2, 0, 2);
+            s.merge(w2, x);
+            stream(&mut s, &mut *rng, w2, 3 * cap, 5 * cap, 0);
+            s.chk(w2);
             // equal counts 2,2,...,2,3
             let v = s.new_sketch(lgmax);
             for i in 0..=cap { s.upd(v, i, if i == cap { 3 } else { 2 }); }
             s.chk(v);
             s.merge(v, x);
             s.chk(v);
+        }
+        // a small receiver merges a sketch of the same maximum size that has already purged, then goes on
+        for &lgmax in &[5u8, 6, 7] {
+            let cap = 3 * (1usize << lgmax) / 4;
+            let n_items = 3 * cap;
+            let a = Alpha::<T> { items: clustered_items(&mut *rng, lgmax, n_items) };
+            let mut s = Sess::new(&mut *out, "fi-merge-then-grow", a);
+            let x = s.new_sketch(lgmax);
+            stream(&mut s, &mut *rng, x, n_items, 4 * cap, 2);
+            for few in [0usize, 2, 7] {
+                let y = s.new_sketch(lgmax);
+                for i in 0..few {
+                    s.upd(y, i, 1 + i as u64);
+                }
+                s.merge(y, x);
+                s.chk(y);
+                stream(&mut s, &mut *rng, y, n_items, 3 * cap, 0);
+                s.chk(y);
+            }
         }
         // merge trees of 2..5 sketches of equal and different sizes, round trips at nodes
         for t in 0..(if !full { 2 } else if thorough { 10 } else { 6 }) {
